@@ -818,7 +818,8 @@ func (w *World) VerifCheckInvariants() (err error) {
 				}
 			}
 			for a, k := range inList {
-				if a.HasRelation() {
+				// tables for the zero target are never retired: a missing entry is harmless for them
+				if a.HasRelation() && !a.RelationTarget.IsZero() {
 					if pos, ok := f.Indices[a]; !ok || pos != k {
 						return fmt.Errorf("cache: filter id %d lists %s at %d but its index map has %d (present %t)", f.ID, name(a), k, pos, ok)
 					}
